@@ -264,6 +264,20 @@ func evalC01(c c01Case, o *Obs) error {
 			if got := pk.AddressPubKeyHash().ScriptAddress(); !bytes.Equal(got, hash160(ser)) {
 				return fmt.Errorf("%s: after SetFormat(%d) AddressPubKeyHash() carries %x, want HASH160 of the new serialisation %x", name, f, got, hash160(ser))
 			}
+			// ... and it is a P2PKH address of a network that carries the key's identifier byte (a public-key address
+			// only remembers that byte, and testnet3 / testnet4 / chipnet / regtest share theirs), in that network's
+			// CashAddr rendering
+			pkh, okNet := pk.AddressPubKeyHash(), false
+			for _, n := range nets {
+				if n.Params.LegacyPubKeyHashAddrID == p.LegacyPubKeyHashAddrID && pkh.IsForNet(n.Params) &&
+					pkh.EncodeAddress() == refCashEncode(n.Params.CashAddressPrefix, 0, hash160(ser)) {
+					okNet = true
+				}
+			}
+			if !okNet {
+				return fmt.Errorf("%s on %s: AddressPubKeyHash() = %q is not the P2PKH address of that key on any network with identifier byte %#x",
+					name, nets[c.Net].Name, pkh.EncodeAddress(), p.LegacyPubKeyHashAddrID)
+			}
 		}
 	}
 	return nil
